@@ -102,18 +102,23 @@ func rulePolicySync(c *Ctx, rule string) {
 			bad, dec := onErrorNever(cr[0], toInstrs(si))
 			c.ob(rule, fn, "a failed ipset creation submits no rules", cr[0], dec && bad == nil, "syncIptables unreachable from the err!=nil edge of createIPSet")
 			_, isDefer := si[0].(*ssa.Defer)
-			destroyInBody := calls(fn, "ipset.Interface).DestroySet")
+			destroyInBody := callsLocal(fn, "ipset.Interface).DestroySet")
 			var deferred []*ssa.Function
+			cands := append([]*ssa.Function{}, fn.AnonFuncs...)
 			allInstrs(fn, func(in ssa.Instruction) {
 				if d, ok := in.(*ssa.Defer); ok {
 					if mc, ok := d.Call.Value.(*ssa.MakeClosure); ok {
 						deferred = append(deferred, mc.Fn.(*ssa.Function))
+					} else if g := d.Call.StaticCallee(); g != nil && g.Blocks != nil && g.Pkg == fn.Pkg {
+						// the clean-up may be a method deferred at the same place instead of a closure
+						deferred = append(deferred, g)
+						cands = append(cands, g)
 					}
 				}
 			})
 			nD := 0
 			okD := !isDefer && len(destroyInBody) == 0
-			for _, a := range fn.AnonFuncs {
+			for _, a := range cands {
 				ds := calls(a, "ipset.Interface).DestroySet")
 				if len(ds) == 0 {
 					continue
@@ -199,6 +204,9 @@ func rulePolicySync(c *Ctx, rule string) {
 			hdr := loopHeaderOf(del[0])
 			ok := hdr != nil
 			for _, t := range errTests(ls[0]) {
+				if hdr == nil {
+					break
+				}
 				r := reachFromEdge(t.OkEdge, newCut().instr(hdr.Instrs[0]))
 				if r.has(cs[0]) {
 					ok = false
@@ -211,7 +219,7 @@ func rulePolicySync(c *Ctx, rule string) {
 			}
 			c.ob(rule, fn, "stale ipset entries are scanned for every set whose entries could be listed", del[0], ok && len(errTests(ls[0])) > 0, "from the err==nil edge of ListEntries every path to the next set / to the return passes the loop that deletes entries not in the new set")
 			// deletion only of entries not in the new set
-			notNew := guardEdges(fn, negate(predCall("sets.String).Has", nil)))
+			notNew := guardEdgesX(fn, negate(predCall("sets.String).Has", nil)))
 			c.ob(rule, fn, "only entries absent from the new set are deleted", del[0], guardedBy(fn, del[0], notNew), "DelEntryWithOptions behind !newEntries.Has(old)")
 			okE, _, why := onErrorReturnsErr(fn, cs[0])
 			c.ob(rule, fn, "a set that cannot be created fails the sync", cs[0], okE, why)
@@ -221,9 +229,18 @@ func rulePolicySync(c *Ctx, rule string) {
 	if fn := c.MustFn(rule, polPkg, "(*PolicyManager).SyncPodChains"); fn != nil {
 		eb := calls(fn, "(*PolicyManager).ensureBasicChain")
 		rs := calls(fn, "iptables.Interface).RestoreAll")
-		er := calls(fn, "iptables.Interface).EnsureRule")
-		if len(eb) != 1 || len(rs) != 1 || len(er) != 2 {
-			c.undecided(rule, fn, "ensureBasicChain / RestoreAll / EnsureRule", nil, fmt.Sprintf("expected 1/1/2 calls, found %d/%d/%d", len(eb), len(rs), len(er)))
+		er := callsLocal(fn, "iptables.Interface).EnsureRule")
+		if len(er) == 0 {
+			// the jump-rule handling may have been extracted: EnsureRule calls of the helpers, except those of ensureBasicChain
+			for _, h := range helperFns(fn, 2) {
+				if len(eb) == 1 && (h == eb[0].Common().StaticCallee() || isCalleeOf(eb[0].Common().StaticCallee(), h)) {
+					continue
+				}
+				er = append(er, callsLocal(h, "iptables.Interface).EnsureRule")...)
+			}
+		}
+		if len(eb) != 1 || len(rs) != 1 || len(er) < 1 {
+			c.undecided(rule, fn, "ensureBasicChain / RestoreAll / EnsureRule", nil, fmt.Sprintf("expected 1/1/>=1 calls, found %d/%d/%d", len(eb), len(rs), len(er)))
 		} else {
 			c.ob(rule, fn, "GLX-INGRESS/EGRESS exist before the pod batch", rs[0], precedes(fn, toInstrs(eb), rs[0]), "ensureBasicChain precedes RestoreAll")
 			for _, e := range er {
@@ -265,7 +282,7 @@ func rulePolicySync(c *Ctx, rule string) {
 		if fn.Pkg.Pkg.Path() != modPath+polPkg {
 			continue
 		}
-		for _, w := range calls(fn, polPkg+".writeLine") {
+		for _, w := range callsLocal(fn, polPkg+".writeLine") {
 			if !contains(varargConsts(w), "-X") {
 				continue
 			}
@@ -274,13 +291,14 @@ func rulePolicySync(c *Ctx, rule string) {
 				return isNamedString(c, call.Call.Args[1], polPkg, "policyChainPrefix")
 			}))
 			inactive := guardEdges(fn, negate(predBool(func(v ssa.Value) bool { _, isL := v.(*ssa.Lookup); return isL })))
+			inactive = append(inactive, guardEdges(fn, negate(predCall("sets.String).Has", nil)))...)
 			c.ob(rule, fn, "-X only for a stale galaxy policy chain", w, guardedBy(fn, w, pre) && guardedBy(fn, w, inactive), "reachable only through HasPrefix(chain, policyChainPrefix) and the not-active edge")
 		}
-		for _, d := range calls(fn, "iptables.Interface).FlushChain", "iptables.Interface).DeleteChain") {
+		for _, d := range callsLocal(fn, "iptables.Interface).FlushChain", "iptables.Interface).DeleteChain") {
 			a := callArgs(d)
 			c.ob(rule, fn, shortCallee(d)+" only on the pod's own chain", d, dependsOn(a[len(a)-1], func(x ssa.Value) bool { return isResultOf(x, 0, polPkg+".podChainName") }), "the chain operand is podChainName(pod)")
 		}
-		for _, r := range calls(fn, "iptables.Interface).RestoreAll") {
+		for _, r := range callsLocal(fn, "iptables.Interface).RestoreAll") {
 			a := callArgs(r)
 			okNF := false
 			if k, ok := a[1].(*ssa.Const); ok {
@@ -296,7 +314,7 @@ func rulePolicySync(c *Ctx, rule string) {
 	if fn := c.MustFn(rule, polPkg, "(*PolicyManager).deletePodRuleByKeyword"); fn != nil {
 		n, ok := 0, true
 		for _, g := range c.SrcFns {
-			for _, call := range calls(g, "(*PolicyManager).deletePodRuleByKeyword") {
+			for _, call := range callsLocal(g, "(*PolicyManager).deletePodRuleByKeyword") {
 				n++
 				a := callArgs(call)
 				if !isNamedString(c, a[1], polPkg, "ingressChain") && !isNamedString(c, a[1], polPkg, "egressChain") {
@@ -391,4 +409,18 @@ func rulePolicyRuleIndexAlignment(c *Ctx, rule string) {
 		})
 		c.ob(rule, rd, "rules are indexed with the spec index", nil, okI && n > 0, fmt.Sprintf("%d index expressions into srcRules/dstRules, each with the loop index over the spec's rule list", n))
 	}
+}
+
+
+// isCalleeOf: h is called (same package, depth <= 2) from g
+func isCalleeOf(g, h *ssa.Function) bool {
+	if g == nil {
+		return false
+	}
+	for _, x := range helperFns(g, 2) {
+		if x == h {
+			return true
+		}
+	}
+	return false
 }
